@@ -1358,3 +1358,13 @@ package larking
 //@   requires m != nil && r != nil
 //@   assert atcall `m.serveGRPC(` [grpc-web-is-never-dispatched-as-plain-grpc C06 C05] !hasprefix(HeaderGet(r.Header, "Content-Type"), "application/grpc-web")
 //@   witness verifWitnessGRPCWebOverHTTP2 for grpc-web-is-never
+
+// ---------------------------------------------------------------------------
+// mux.go: the streaming proxy (C10, the per-path part only: the two pumps run
+// concurrently and their interleavings are outside these contracts). The pump that
+// copies the client's messages to the backend must forward the end of the client's
+// stream: a backend that reads until io.EOF otherwise never answers.
+//@ func createConnHandler$1$1 serves C10 partial ghost count post
+//@   count closes `clientStream.CloseSend(`
+//@   ensures [client-half-close-reaches-the-backend C10] inErr == io.EOF ==> closes == 1
+//@   witness verifWitnessProxyHalfClose for client-half-close
